@@ -1,4 +1,157 @@
 import StunVerif.Spec.Msg
 import StunVerif.Lemmas.Bytes
+import StunVerif.Lemmas.Header
+import StunVerif.Lemmas.Exposed
+import StunVerif.Lemmas.WalkSpec
 namespace StunVerif
+open Spec
+
+/-- `Message::from_bytes` on a buffer of at least 20 bytes, as a decision list -/
+theorem msgFromBytes_unfold (b : Bytes) (h : 20 ≤ b.length) :
+    msgFromBytes b =
+      if 0x4000 ≤ beNat (b.take 2) then .error .notStun
+      else if (b.drop 4).take 4 ≠ [0x21, 0x12, 0xA4, 0x42] then .error .notStun
+      else if beNat ((b.drop 2).take 2) + 20 > b.length then
+        .error (.truncated (beNat ((b.drop 2).take 2) + 20) b.length)
+      else if beNat ((b.drop 2).take 2) + 20 < b.length then
+        .error (.tooLarge (beNat ((b.drop 2).take 2) + 20) b.length)
+      else (walk b.length b (b.drop 20) 20 []).map fun _ => ⟨b⟩ := by
+  obtain ⟨t0, t1, l0, l1, c0, c1, c2, c3, rest, rfl, hr⟩ := split20 b h
+  unfold msgFromBytes
+  rw [header_of_cons _ _ _ _ _ _ _ _ _ hr]
+  simp only [List.take_succ_cons, List.take_zero, List.drop_succ_cons, List.drop_zero, beNat_two]
+  by_cases h1 : be16 t0 t1 ≥ 0x4000
+  · simp [h1, bind, Except.bind]
+  · by_cases h2 : [c0, c1, c2, c3] = cookieBytes
+    · simp only [h1, h2, if_false, ne_eq, not_true, bind, Except.bind]
+      rfl
+    · have h2' : ¬ [c0, c1, c2, c3] = [0x21, 0x12, 0xA4, 0x42] := h2
+      simp [h1, h2, h2', bind, Except.bind]
+
+theorem beNat_take2_lt (l : Bytes) : beNat (l.take 2) < 65536 := by
+  match l with
+  | [] => simp [beNat]
+  | [a] => have := u8_lt a; simp [beNat]; omega
+  | a :: b :: _ =>
+    simp only [List.take_succ_cons, List.take_zero, beNat_two]; exact be16_lt a b
+
+theorem msgFromBytes_ok_iff (b : Bytes) (m : Msg) :
+    msgFromBytes b = .ok m ↔
+      m = ⟨b⟩ ∧ 20 ≤ b.length ∧ beNat (b.take 2) < 0x4000 ∧
+      (b.drop 4).take 4 = [0x21, 0x12, 0xA4, 0x42] ∧
+      beNat ((b.drop 2).take 2) + 20 = b.length ∧
+      walk b.length b (b.drop 20) 20 [] = .ok () := by
+  by_cases h20 : 20 ≤ b.length
+  · rw [msgFromBytes_unfold b h20]
+    constructor
+    · intro h
+      split at h
+      · cases h
+      · split at h
+        · cases h
+        · split at h
+          · cases h
+          · split at h
+            · cases h
+            · rename_i h1 h2 h3 h4
+              cases hw : walk b.length b (b.drop 20) 20 [] with
+              | error e => rw [hw] at h; cases h
+              | ok u =>
+                rw [hw] at h
+                simp only [Except.map, Except.ok.injEq] at h
+                exact ⟨h.symm, h20, by omega, by simpa using h2, by omega, rfl⟩
+    · rintro ⟨rfl, _, h1, h2, h3, h4⟩
+      rw [if_neg (by omega), if_neg (by simp [h2]), if_neg (by omega), if_neg (by omega), h4]
+      rfl
+  · unfold msgFromBytes
+    rw [header_short b (by omega)]
+    simp only [bind, Except.bind]
+    constructor
+    · intro h; cases h
+    · rintro ⟨_, h, _⟩; omega
+
+/-- a well-formed buffer passes the attribute walk -/
+theorem wellFormedAs_walk (b : Bytes) (ts : List Tlv) (hw : WellFormedAs b ts) :
+    walk b.length b (b.drop 20) 20 [] = .ok () := by
+  obtain ⟨h20, _, _, hlen, hwf, htile, hord, hfp⟩ := hw
+  have hdl : (ts.flatMap Tlv.enc).length = b.length - 20 := by rw [← htile, List.length_drop]
+  have h64 := beNat_take2_lt (b.drop 2)
+  rw [htile]
+  exact walk_ok_complete b b.length ts 20 [] hwf (by omega) (by omega)
+    (by rw [ordGo_nil]; exact hord) hfp
+
+/-- a buffer with a good header that passes the attribute walk is well formed -/
+theorem walk_wellFormed (b : Bytes) (h20 : 20 ≤ b.length) (ht : beNat (b.take 2) < 0x4000)
+    (hc : (b.drop 4).take 4 = [0x21, 0x12, 0xA4, 0x42])
+    (hl : beNat ((b.drop 2).take 2) + 20 = b.length)
+    (hw : walk b.length b (b.drop 20) 20 [] = .ok ()) : WellFormed b := by
+  obtain ⟨ts, hwf, htile, hord, hfp⟩ := walk_ok_sound b _ _ _ _ hw
+  rw [ordGo_nil] at hord
+  exact ⟨ts, h20, ht, hc, hl, hwf, htile, hord, hfp⟩
+
+/-- the reference attribute list of a well-formed buffer -/
+theorem wellFormedAs_allAttrs (b : Bytes) (ts : List Tlv) (hw : WellFormedAs b ts) :
+    allAttrsGo b.length (b.drop 20) = ts.map Tlv.raw := by
+  obtain ⟨h20, _, _, hlen, hwf, htile, _, _⟩ := hw
+  have hdl : (ts.flatMap Tlv.enc).length = b.length - 20 := by rw [← htile, List.length_drop]
+  have h64 := beNat_take2_lt (b.drop 2)
+  rw [htile]
+  exact allAttrsGo_tiles b.length ts hwf (by omega) (by omega)
+
+/-- errors of the whole parser -/
+theorem msgFromBytes_err (b : Bytes) (e : PErr) (h : msgFromBytes b = .error e) :
+    e = .notStun ∨ walkErr e := by
+  by_cases h20 : 20 ≤ b.length
+  · rw [msgFromBytes_unfold b h20] at h
+    split at h
+    · injection h with h; exact Or.inl h.symm
+    · split at h
+      · injection h with h; exact Or.inl h.symm
+      · split at h
+        · injection h with h; subst h; exact Or.inr (Or.inl ⟨_, _, rfl⟩)
+        · split at h
+          · injection h with h; subst h; exact Or.inr (Or.inr (Or.inl ⟨_, _, rfl⟩))
+          · cases hw : walk b.length b (b.drop 20) 20 [] with
+            | error e' =>
+              rw [hw] at h
+              simp only [Except.map] at h
+              injection h with h; subst h
+              exact Or.inr (walk_err_class b _ _ _ _ _ (by rw [List.length_drop]; omega) hw)
+            | ok u => rw [hw] at h; cases h
+  · unfold msgFromBytes at h
+    rw [header_short b (by omega)] at h
+    simp only [bind, Except.bind] at h
+    injection h with h; subst h; exact Or.inr (Or.inl ⟨_, _, rfl⟩)
+
+theorem walkErr_not_fault (f : Fault) : ¬ walkErr (.fault f) := by
+  rintro (⟨_, _, h⟩ | ⟨_, _, h⟩ | ⟨_, h⟩ | ⟨_, h⟩ | h) <;> cases h
+
+theorem walkErr_not_notStun : ¬ walkErr .notStun := by
+  rintro (⟨_, _, h⟩ | ⟨_, _, h⟩ | ⟨_, h⟩ | ⟨_, h⟩ | h) <;> cases h
+
+/-- an "attribute after ..." error of the parser comes from the walk -/
+theorem msgFromBytes_after (b : Bytes) (e : PErr) (ty : Nat) (h : msgFromBytes b = .error e)
+    (he : e = .afterFingerprint ty ∨ e = .afterIntegrity ty) :
+    walk b.length b (b.drop 20) 20 [] = .error e := by
+  by_cases h20 : 20 ≤ b.length
+  · rw [msgFromBytes_unfold b h20] at h
+    split at h
+    · injection h with h; subst h; rcases he with he | he <;> cases he
+    · split at h
+      · injection h with h; subst h; rcases he with he | he <;> cases he
+      · split at h
+        · injection h with h; subst h; rcases he with he | he <;> cases he
+        · split at h
+          · injection h with h; subst h; rcases he with he | he <;> cases he
+          · cases hw : walk b.length b (b.drop 20) 20 [] with
+            | error e' =>
+              rw [hw] at h
+              simp only [Except.map] at h
+              injection h with h; subst h; rfl
+            | ok u => rw [hw] at h; cases h
+  · unfold msgFromBytes at h
+    rw [header_short b (by omega)] at h
+    simp only [bind, Except.bind] at h
+    injection h with h; subst h; rcases he with he | he <;> cases he
+
 end StunVerif
